@@ -168,6 +168,33 @@ def run(rep, sub=False):
         return
     walkers = BW | FW | set(forwarders)
     crate = ogp.crate
+    # function walkers by what they cover: a function of the recursive component that - itself or through helpers of the component it hands
+    # its naga::Function on to - walks function.body with the block walker *and* the whole function.expressions arena; only such a function
+    # may be the target of a followed callee handle (a helper that scans the expressions only would leave call statements unseen)
+    is_fn = lambda t: t.endswith('naga::Function') or t.endswith('Function')
+
+    def covers(q, what, seen=()):
+        fi = crate.fns[q]
+        pidx = param_index(fi, is_fn)
+        if pidx is None or q in seen:
+            return False
+        P = ('param', q, fi['params'][pidx]['pat'].get('name'))
+        own = ogp.effects.get(q, [])
+        if what == 'body':
+            if any(any(l[1] == ('f', P, 'body') for l in e['loops']) for e in own) or \
+                    any(e['kind'] == 'reccall' and e['callee'] in BW and ('f', P, 'body') in e['args'] for e in own):
+                return True
+        else:
+            if any(any(l[1] == ('f', P, 'expressions') and l[2] == [] for l in e['loops']) for e in own if e['in'] == q or e['in'] not in recursive):
+                return True
+        for e in own:
+            if e['kind'] == 'reccall' and e['in'] == q and e['callee'] != q and e['cond'] == TRUE:
+                cidx = param_index(crate.fns[e['callee']], is_fn)
+                if cidx is not None and cidx < len(e['args']) and e['args'][cidx] == P and covers(e['callee'], what, seen + (q,)):
+                    return True
+        return False
+    FWfull = {q for q in recursive if covers(q, 'body') and covers(q, 'expressions')}
+    walkers |= FWfull
     is_stage = lambda t: 'ShaderStages' in t and 'Map' not in t
     is_map = lambda t: 'Map<' in t and 'ShaderStages' in t
     is_module = lambda t: t.endswith('naga::Module') or t.endswith('Module')
@@ -227,6 +254,10 @@ def run(rep, sub=False):
             return
         e, scr, pos, target = hits[0]
         extra = [c for c in pos if c is not scr and not (c[0] == 'is' and c[1] == scr[1]) and not guard_ok(c, target)]
+        if enum == 'Statement' and v == 'Call':
+            # `Statement::Call { result: None, .. }`: calls with a result are left to their Expression::CallResult, which naga's IR invariant
+            # guarantees to exist in the same function's arena for the same callee (that arm is checked as its own pair below)
+            extra = [c for c in extra if not (c[0] == 'is' and c[1] == ('vf', scr[1], scr[2], 'result') and c[2].split('::')[-1] == 'None')]
         # conditions contributed by enclosing matches on other values (e.g. the loop element binding) are not extras if they test the same scrutinee
         rep.check(not extra, 'C03.1.traversal', 'traversal:' + key, where(e),
                   f'{key} is followed only under additional condition(s) {[E.show(c, maxdepth=4) for c in extra][:3]}: some placements are skipped',
@@ -246,25 +277,16 @@ def run(rep, sub=False):
     for v, f, ty in blocks:
         check_pair('Statement', v, f, BW, 'nested block', 'block')
     for v, f in funcs:
-        check_pair('Statement', v, f, FW, 'callee of a call statement', 'fn')
+        check_pair('Statement', v, f, FWfull, 'callee of a call statement', 'fn')
     for v, f in efuncs:
-        check_pair('Expression', v, f, FW, 'callee of a value-returning call', 'fn')
+        check_pair('Expression', v, f, FWfull, 'callee of a value-returning call', 'fn')
     # function walker walks its body and its expression arena
-    for q in sorted(FW):
-        fi = crate.fns[q]
-        pidx = param_index(fi, lambda t: t.endswith('naga::Function') or t.endswith('Function'))
-        if pidx is None:
-            rep.bad('C03.1.function-body', f'function-param:{q}', fwhere(q), 'the function walker has no naga::Function parameter', undecided=True)
-            continue
-        pname = fi['params'][pidx]['pat'].get('name')
-        P = ('param', q, pname)
-        body_walk = any(any(l[1] == ('f', P, 'body') for l in e['loops']) for e in ogp.effects.get(q, [])) or \
-            any(e['kind'] == 'reccall' and e['callee'] in BW and ('f', P, 'body') in e['args'] for e in ogp.effects.get(q, []))
-        rep.check(body_walk, 'C03.1.function-body', f'body:{q}', fwhere(q), 'the function walker does not walk function.body (call statements are never seen)',
-                  ok_detail='walks function.body')
-        expr_walk = any(any(l[1] == ('f', P, 'expressions') and l[2] == [] for l in e['loops']) for e in ogp.effects.get(q, []))
-        rep.check(expr_walk, 'C03.1.function-body', f'expressions:{q}', fwhere(q), 'the function walker does not iterate the whole function.expressions arena',
-                  ok_detail='iterates function.expressions unfiltered')
+    rep.check(bool(FWfull), 'C03.1.function-body', 'function-walker', fwhere(sorted(FW)[0]),
+              'no function of the walker walks both function.body (call statements) and the whole function.expressions arena of the function it is given',
+              ok_detail=f'{sorted(x.split("::")[-1] for x in FWfull)} walk function.body and iterate function.expressions unfiltered')
+    for q in sorted(FWfull):
+        rep.ok('C03.1.function-body', f'body:{q}', fwhere(q), 'walks function.body')
+        rep.ok('C03.1.function-body', f'expressions:{q}', fwhere(q), 'iterates function.expressions unfiltered')
     # global use -> map update
     for v, f in eglob:
         key = f'Expression::{v}.{f}'
@@ -383,7 +405,21 @@ def run(rep, sub=False):
             rep.check(rows[v].endswith('ShaderStages::' + want), 'C03.3.seed-stage', f'stage-row:{v}', fwhere(q),
                       f'entry points of stage {v} are walked with stage set {rows[v]} instead of ShaderStages::{want}', ok_detail=f'{v} -> {rows[v]}')
         # walks entry.function: some loop source is elem.function.body / .expressions
-        walks_fn = any(any(l[1] in (('f', ('f', elem, 'function'), 'body'), ('f', ('f', elem, 'function'), 'expressions')) for l in x['loops']) for x in es)
+        EF = ('f', elem, 'function')
+
+        def seed_covers(what):
+            if any(any(l[1] == ('f', EF, what) for l in x['loops']) for x in es):
+                return True
+            for x in es:
+                if x['kind'] != 'reccall':
+                    continue
+                if what == 'body' and x['callee'] in BW and ('f', EF, 'body') in x['args']:
+                    return True
+                cidx = param_index(crate.fns[x['callee']], is_fn)
+                if cidx is not None and cidx < len(x['args']) and x['args'][cidx] == EF and covers(x['callee'], what):
+                    return True
+            return False
+        walks_fn = seed_covers('body') and seed_covers('expressions')
         rep.check(walks_fn, 'C03.3.seed-function', f'entry-function:{q}', fwhere(q), 'the walk does not start at entry.function', ok_detail='starts at entry.function')
         # map created once outside the loop and returned
         ret = ogp.summaries[q]
